@@ -100,7 +100,7 @@ M = [
     ('C11', 'hash-header-dropped', 'pgpy/pgp.py', "            hhdr = 'Hash: {hashes:s}\\n'.format(hashes=','.join(sorted(hashes))) if hashes else ''", "            hhdr = ''"),
     ('C11', 'trailing-blanks-signed-again', 'pgpy/pgp.py', "        if self.type != 'cleartext':\n            return self.message\n", "        if True:\n            return self.message\n"),
     ('C11', 'crlf-normalisation-removed', 'pgpy/pgp.py', "            cleartext = unarmored['cleartext'].replace('\\r\\n', '\\n')\n            if cleartext.endswith('\\r'):\n                cleartext = cleartext[:-1]", "            cleartext = unarmored['cleartext']"),
-    ('C11', 'text-signature-type-binary', 'pgpy/pgp.py', "                sig_type = SignatureType.CanonicalDocument\n                subject = subject._signed_text", "                subject = subject._signed_text"),
+    ('C11', 'text-signature-type-binary', 'pgpy/pgp.py', "                sig_type = SignatureType.CanonicalDocument\n", "                pass\n"),
     ('C15', 'selfsig-oldest-first', 'pgpy/pgp.py', "            for sig in reversed(self._signatures):\n                if sig.signer_fingerprint:", "            for sig in self._signatures:\n                if sig.signer_fingerprint:"),
     ('C15', 'del-uid-leaves-uid', 'pgpy/pgp.py', "        u._parent = None\n        self._uids.remove(u)", "        u._parent = None"),
     ('C15', 'bind-omits-cross-signature', 'pgpy/pgp.py', "                sig._signature.subpackets.addnew('EmbeddedSignature', hashed=False, _sig=crosssig._signature)", "                pass"),
